@@ -36,7 +36,7 @@ func init() {
 	register(&Property{
 		ID:    "C23",
 		Level: "exploration",
-		Rule: "cases = 1..4 legacy swamps x <=30 writes/modifies/deletes (chunk size 200..8192 bytes, all value kinds, metadata) produced by the real V1 engine; migrator options Verify/DeleteOld/Parallel seeded; fault plan: none | one failing file operation of the migration (EIO/ENOSPC/short write, operation index seeded over the operations the fault-free migration issues) | a stale .hyd next to the folder; " +
+		Rule: "cases = 1..4 legacy swamps x <=30 writes/modifies/deletes (chunk size 200..8192 bytes, all value kinds, metadata) produced by the real V1 engine; migrator options Verify/DeleteOld/Parallel seeded; fault plan: none | one failing file operation of the migration (EIO/ENOSPC/short write, operation index seeded over the operations the fault-free migration issues) | a stale .hyd next to the folder | the new file silently damaged when its writer closes it (cut, flipped byte, zeroed run); " +
 			"oracle: for each swamp, migration reported success => V2 load == V1 load (keys, values, metadata) and the stored name == the swamp's name; reported failure => the V1 folder still loads exactly as before; non-trivial = at least one swamp with modified or deleted records was migrated, or a fault fired; distinct = hash of (history, options, fault, outcome)",
 		Gen: genC23,
 		Run: runC23,
@@ -54,7 +54,7 @@ func genC23(seed uint64, tier string) Case {
 	c.Cfg["verify"] = int64(r.intn(2))
 	c.Cfg["delete_old"] = int64(r.intn(2))
 	c.Cfg["parallel"] = int64(1 + r.intn(4))
-	c.Cfg["fault"] = int64(r.pick(5, 4, 2)) // 0 none, 1 one failing op, 2 stale .hyd
+	c.Cfg["fault"] = int64(r.pick(5, 4, 2, 2)) // 0 none, 1 one failing op, 2 stale .hyd, 3 the new file is silently damaged when its writer closes it
 	c.Cfg["fault_pos"] = int64(r.intn(1000))
 	c.Cfg["fault_kind"] = int64(r.intn(3))
 	nsw := 1 + r.intn(4)
@@ -261,10 +261,14 @@ func runC23(t *testing.T, c Case) (res Result) {
 				disk.SetFault(seq, f)
 			}
 		}
+		if fault == 3 {
+			disk.SetDamageOnClose(".hyd", int(c.cfg("fault_kind", 0)))
+		}
 		legacyImage := disk.Clone() // the legacy folders as the migration finds them
 		rr, rerr, finished := runMigration(disk)
-		faultFired = len(disk.Stats().FiredSeqs) > 0
+		faultFired = len(disk.Stats().FiredSeqs) > 0 || disk.Stats().SilentDamage > 0
 		disk.ClearFaults()
+		disk.SetDamageOnClose("", 0)
 		if !finished {
 			r := violation("migration_never_returns", "migrator.Run had not returned after 30 simulated minutes")
 			v = &r
@@ -355,6 +359,11 @@ func runC23(t *testing.T, c Case) (res Result) {
 			return
 		}
 		outcome = fmt.Sprintf("ok=%d failed=%d", rr.SuccessfulSwamps, len(rr.FailedSwamps))
+		if len(failed) == 0 && fault == 3 && c.cfg("verify", 0) == 0 {
+			// silent damage without verification: the migrator was told nothing and had no means to notice; what it
+			// reports as migrated is not judged (with Verify it must notice, and then the legacy data must be intact)
+			return
+		}
 		// --- 4. read everything back through the new engine
 		v2state, e := readAll(true)
 		if e != "" {
